@@ -59,3 +59,54 @@ theorem run_inv {s0 s : Sys} (acts : List Act) (inv : Inv s0) (h : run pinned s0
       · exact ih i1 h
 
 end Quic.Sync.Spsc
+
+namespace Quic.Sync.Spsc
+open Quic.Sync.Ra
+
+/-! ### sequentially consistent runs: every load reads the newest message -/
+
+def newestTs (s : Sys) (l : Nat) : Nat :=
+  match s.mem.hist l with
+  | m :: _ => m.ts
+  | [] => 0
+
+def Act.scOk (s : Sys) : Act → Bool
+  | .pLoadOpen ts => ts == newestTs s OPEN
+  | .cLoadOpen ts => ts == newestTs s OPEN
+  | .pLoadHead ts => ts == newestTs s HEAD
+  | .dLoadHead _ ts => ts == newestTs s HEAD
+  | .cLoadTail ts => ts == newestTs s TAIL
+  | .cLoadTail2 ts => ts == newestTs s TAIL
+  | .dLoadTail _ ts => ts == newestTs s TAIL
+  | _ => true
+
+/-- a schedule under sequentially consistent memory (interleaving semantics, no stale reads) -/
+def runSC (o : Orderings) : Sys → List Act → Option Sys
+  | s, [] => some s
+  | s, a :: as =>
+    if a.scOk s then
+      match step o s a with
+      | none => none
+      | some s' => runSC o s' as
+    else none
+
+theorem runSC_run {o : Orderings} {s s' : Sys} (acts : List Act) (h : runSC o s acts = some s') :
+    run o s acts = some s' := by
+  induction acts generalizing s with
+  | nil => simpa [runSC, run] using h
+  | cons a as ih =>
+    simp only [runSC] at h
+    split at h
+    · simp only [run]
+      split at h
+      · simp at h
+      · rename_i s1 hs; rw [hs]; exact ih h
+    · simp at h
+
+/-- outcome of a schedule from the initial state -/
+def failOf (o : Orderings) (cap : Nat) (acts : List Act) : Option Fail :=
+  match run o (init cap) acts with
+  | some s => s.fail
+  | none => none
+
+end Quic.Sync.Spsc
